@@ -139,3 +139,30 @@ def run_exhaustive(c, cfgs, clause, orders=3, trace_every=10, lazy=False, parts=
             for i, k in enumerate(("spec_ties", "spec_no_quorum_decisions", "spec_atropos_not_first", "spec_round3_decisions")):
                 total[k] = total.get(k, 0) + sp[i]
     return dict(total=total, samples=samples)
+
+
+def run_vecindex(c, cfgs, clause, kinds):
+    """Algorithm-level model: TLC checks VecIndex.tla (transcribed vector-clock algorithm) against the graph definitions on
+    every DAG/indexing order in scope and emits every complete DAG; each is indexed by a real vecfc.Index and all
+    forkless-cause / merged-clock answers are compared with the specification's. Internal vectors are compared too but a
+    difference there is only reported as a note (the properties constrain the answers, not the representation)."""
+    total = {}
+    sample = None
+    for cfg in cfgs:
+        states = c.path("vec_%s.ndjson" % cfg)
+        res = c.tlc_must_pass("lachesis", "MC_VecIndex", cfg="MC_VecIndex_" + cfg, edges_out=states, workers=8, timeout=3400)
+        c.log("TLC VecIndex %s: %d distinct states, %d complete DAGs emitted" % (cfg, res.distinct, res.edges))
+        rep = json.loads(c.vh(["vecreplay", states], timeout=3400).stdout)
+        for k, v in rep["stats"].items():
+            total[k] = total.get(k, 0) + v
+        sample = sample or rep.get("sample")
+        for sig, n in (rep.get("sigs") or {}).items():
+            ms = [m for m in rep.get("mismatches") or [] if m["kind"] == sig]
+            if sig in kinds:
+                m = ms[0] if ms else {}
+                c.violation(clause, "vecindex-replay:" + sig,
+                            "real vecfc.Index disagrees with VecIndex.tla on %d complete DAGs of cfg %s (%s at %s: want %s got %s)" % (
+                                n, cfg, sig, m.get("at"), json.dumps(m.get("want")), json.dumps(m.get("got"))), replay=m)
+            elif sig.startswith("internal") or sig == "add-failed":
+                c.notes.append("%s: %d DAGs of cfg %s differ from the algorithm model in %s (representation only, not a verdict)" % (c.pid, n, cfg, sig))
+    return dict(total=total, sample=sample)
